@@ -864,9 +864,12 @@ theorem o01_createInternalClassString_safe (hG : o01_Good P) (hF : o01_Flush P) 
         have := List.all_eq_true.1 hmeth m hm
         simpa [o01_notSkipped_inlined hs] using this
       have h2 : o01_Safe P (innerClassesG (fun ic => createClassString env n ic inner true)
-          (c.classes.filter (fun ic => !isInternal ic.name))) := by
+          (c.classes.filter (fun ic => !isInternal ic.name && !ad.contains ic.name))) := by
         refine o01_innerClassesG_safe _ _ (fun ic hic => ?_)
-        exact o01_createClassString_safe hG hF env n ic _ true (List.all_eq_true.1 hinner ic hic)
+        have hic' : ic ∈ c.classes.filter (fun ic => !isInternal ic.name) := by
+          rw [List.mem_filter] at hic ⊢
+          exact ⟨hic.1, by simpa using (Bool.and_eq_true_iff.1 hic.2).1⟩
+        exact o01_createClassString_safe hG hF env n ic _ true (List.all_eq_true.1 hinner ic hic')
           (fun h' => nomatch h')
       have h3 : ∀ ad', o01_Safe P (internalSupersG
           (fun ss => createInternalClassString env n ss inner ad') c.superclasses) := by
